@@ -201,6 +201,10 @@ def scalar_and_sim_cases(ctx, rng, scale, failures, dist):
                     q = ResidualSimVQ(dim=dim, num_quantizers=nq, codebook_size=rng.choice([4, 7]), rotation_trick=ci % 4 < 2)
                 q.train(train)
                 x = torch.randn(2, 3, dim) * rng.choice([0.3, 1.0, 3.0])
+                if kind != 'rsimvq' and ci % 4 == 1:
+                    x = torch.zeros(2, 3, dim)                      # structured inputs: the residual vanishes (or sits on the grid) early
+                elif kind != 'rsimvq' and ci % 4 == 3:
+                    x = torch.randint(-2, 3, (2, 3, dim)).float() * 0.5
                 with torch.no_grad():
                     ret = q(x, return_all_codes=True)
                     out, idx, all_codes = ret[0], ret[1], ret[-1]
